@@ -4,7 +4,8 @@ from props import forest_common as fc
 
 THEOREMS = ['C20_tft_unshaped_exact', 'C20_tft_unshaped_perm', 'C20_tft_resolve_in', 'C20_is_ambiguous_single', 'C20_is_ambiguous_iff',
             'C20_visit_terminates', 'C20_visit_total', 'C20_on_cycle_exact', 'C20_cycle_events_sound',
-            'C20_loop_eq_rec', 'C20_example_tft', 'C20_example_cycle']
+            'C20_loop_eq_rec', 'C20_example_tft', 'C20_example_cycle', 'C20_graph_resolve_in_den',
+            'C20_graph_resolve_total', 'C20_example_graph_resolve']
 GEN_DEPS = ['ForestSortKey']
 RULE = ('(c) random grammars for the dynamic lexers with one to three %ignore literals of different lengths that are prefixes/'
         'suffixes of the grammar\'s own string terminals, all texts up to length 4, character-level tiling oracle; '
